@@ -33,6 +33,26 @@ def trim_cases(run, h):
     run.add_tlc(res, f"{cfg}: InsideRecord, NearestIsClosest")
     allc = [c for c in res.cases if isinstance(c, dict) and "qs" in c]
     trim_twice(run, h, allc)
+    # long / densely sampled records (time / dt up to 2e5): a trim time that IS a sample time selects that sample (nearest sample,
+    # the relation of Trim.tla, here far beyond the sizes TLC enumerates)
+    for n, fs, pairs in ((200001, 1000.0, ((120.0, 180.0), (0.0, 199.999), (57.123, 57.124), (199.0, 200.0))),
+                         (120001, 100.0, ((600.0, 1100.0), (1199.99, 1200.0), (0.01, 999.99)))):
+        dt = 1.0 / fs
+        ramp = np.arange(n, dtype=float)
+        for t0, t1 in pairs:
+            i0, i1 = int(round(t0 * fs)), int(round(t1 * fs))
+            for what in ("TimeSeries", "SeismicRecording3C"):
+                o = h.TimeSeries(ramp, dt) if what == "TimeSeries" else h.SeismicRecording3C(h.TimeSeries(ramp, dt), h.TimeSeries(ramp, dt), h.TimeSeries(ramp, dt))
+                try:
+                    o.trim(t0, t1)
+                    a = o.amplitude if what == "TimeSeries" else o.ew.amplitude
+                    got = (int(a[0]), int(a[-1]), len(a))
+                except IndexError as e:
+                    got = f"IndexError: {e}"
+                if got != (i0, i1, i1 - i0 + 1):
+                    run.violation(f"trim:{what}:long-record", f"{what} of {n} samples at {fs} Hz, trim({t0}, {t1}): kept (first, last, count) = {got}, "
+                                  f"the samples at these times are {i0}..{i1} ({i1 - i0 + 1})", dict(kind="trim-long", n=n, fs=fs, t0=t0, t1=t1))
+            run.case(("trim-long", n, fs, t0, t1))
     for c in allc:
         n, fs, qs, qe = c["n"], c["fs"], c["qs"], c["qe"]
         dt = 1.0 / fs
